@@ -240,7 +240,7 @@ def cell_of(c):
     b = "x".join(map(str, c["batch"])) or "scalar"
     return (f"C16/{c['via']}/{c['dtype']}/b={b}/mix={c['mix']}/jit={c['jit_mode']}/tries={c['tries_mode']}:{c['tries']}"
             f"/upper={int(c['upper'])}/out={int(c['out'])}/layout={c['layout']}/trace={int(c.get('trace', False))}"
-            f"/n={c['n'] if c['n'] <= 2 else '3+'}")
+            f"/n={c['n'] if c['n'] <= 2 else '3+'}" + ("/jitter=0d-tensor" if c.get("jit_tensor") else ""))
 
 
 def case_tensors(c):
@@ -338,7 +338,9 @@ def run_impl(c):
         ctxs.append(settings.trace_mode(True))
     kwargs = {}
     if c["jit_mode"] in ("explicit", "explicit+settings"):
-        kwargs["jitter"] = c["jit"]
+        # extension session 5: `jitter` given as a 0-d float64 tensor holding the same value (schedule, mask product, in-place add and
+        # the `:.1e` formatting of the warning / error text must behave as with the Python float)
+        kwargs["jitter"] = torch.tensor(c["jit"], dtype=torch.float64) if c.get("jit_tensor") else c["jit"]
     if c["tries_mode"] in ("explicit", "explicit+settings"):
         kwargs["max_tries"] = c["tries"]
     out_t = None
@@ -737,6 +739,44 @@ def compare_skeleton(c, obs, mo, sktr, skeleton):
     return []
 
 
+def compare_sem(c, obs, mo):
+    """state semantics of the EXTRACTED statement skeleton (Lean interpreter `runSkeleton`, LinOp/C16/SkSem.lean, run by the driver on
+    `Generated.C16.coreSkeleton`) vs. (a) the model's core - equal by theorem `model_refines_translated_body` while the pinned
+    skeleton obligation holds, reported per input when it does not - and (b) the implementation directly: outcome, number of
+    cholesky_ex calls, number of NumericalWarnings, input modified, per-member jitter of the final work tensor (vs the model's)."""
+    from linear_operator.utils.warnings import NumericalWarning
+    sem = mo.get("sem")
+    if sem is None:
+        return ["driver printed no sem= field"]
+    if sem == "na":
+        return [] if not obs["core_frames"] else ["interpreter not applicable (1x1 operator shortcut) but _psd_safe_cholesky was entered"]
+    if sem == "stuck":
+        return ["state semantics of the extracted skeleton is stuck / falls off the end on this input (reads an unbound local, "
+                "unsupported statement, or no return/raise reached)"]
+    d = []
+    if sem != "ok":
+        d.append(f"interpreted extracted skeleton and model core disagree on this input (semobs {mo.get('semobs')} vs model "
+                 f"err={mo['err']} calls={mo['calls']})")
+    parts = mo.get("semobs", "-").split(":")
+    if len(parts) != 5:
+        return d + [f"semobs unparsable: {mo.get('semobs')}"]
+    e, calls, nw, chg, added = parts
+    if e != err_name(obs["err"]):
+        d.append(f"outcome impl={err_name(obs['err'])} interpreted skeleton={e}")
+        return d
+    if int(calls) != len(obs["records"]):
+        d.append(f"cholesky_ex calls impl={len(obs['records'])} interpreted skeleton={calls}")
+    iw = [x for x in obs["warns"] if issubclass(x.category, NumericalWarning)]
+    if int(nw) != len(iw):
+        d.append(f"warnings impl={len(iw)} interpreted skeleton={nw}")
+    changed = obs["A"]._version != obs["ver0"] or not same_bits(obs["A"], obs["Asaved"])
+    if changed != (chg == "1"):
+        d.append(f"input modified impl={changed} interpreted skeleton={chg}")
+    if added != mo["added"]:
+        d.append(f"per-member jitter of the work tensor: interpreted skeleton {added}, model {mo['added']}")
+    return d
+
+
 # --------------------------------------------------------------------------------------------- catalogue
 JITS = {"f32": [1e-5, 1e-4, 1e-3, 1e-2], "f64": [1e-12, 1e-10, 1e-6, 1e-3]}
 JITS_BIG = {"f32": [1e-3, 1e-2], "f64": [1e-10, 1e-6, 1e-3]}
@@ -810,6 +850,14 @@ def catalogue(rng, tier):
             for mix in ("pd+psd0", "neg", "allpd", "pd+nan"):
                 cfg = gen_cfg(rng, mix, dtype, (2,), "func", dict(tries_mode="explicit", tries=T))
                 cases.append(make_case(rng, mix, dtype, (2,), cfg))
+        # tensor-valued jitter (0-d): every outcome kind, batch shapes incl. scalar, both sources that pass it explicitly
+        for batch in ((), (3,), (2, 2)):
+            for mix in ("pd+ind1+psd0", "last+pd", "over+psd0", "ind1+ind2+pd", "pd+nan", "neg"):
+                jm = rng.choice(["explicit", "explicit+settings"])
+                cfg = gen_cfg(rng, mix, dtype, batch, "func", dict(jit_mode=jm))
+                if cfg["jit_mode"] in ("explicit", "explicit+settings"):
+                    cfg["jit_tensor"] = True
+                cases.append(make_case(rng, mix, dtype, batch, cfg))
         # trace mode (outside the property; model correspondence and immutability only)
         for mix in ("pd+psd0", "allpd"):
             cfg = gen_cfg(rng, mix, dtype, (2,), "func", dict(trace=True, out=False))
@@ -888,7 +936,7 @@ def process(chk, cases, ch=None):
     for idx, c in enumerate(cases):
         cell = cell_of(c)
         desc = json.dumps({k: c[k] for k in ("mix", "dtype", "batch", "n", "kinds", "mats", "jit_mode", "jit", "tries_mode", "tries",
-                                             "upper", "out", "layout", "via", "trace")}, sort_keys=True)
+                                             "upper", "out", "layout", "via", "trace")} | ({"jit_tensor": True} if c.get("jit_tensor") else {}), sort_keys=True)
         failing = [k for k in c["kinds"] if k != "pd"]
         chk.case(cell + " " + desc, nontrivial=bool(failing) or len(c["kinds"]) > 1)
         chk.count("via:" + c["via"])
@@ -919,6 +967,12 @@ def process(chk, cases, ch=None):
         if not diffs:
             diffs = compare_skeleton(c, obs, mo, sktr, skeleton)
             chk.count("skeleton-trace:" + ("entered" if obs["core_frames"] else "not-entered"))
+            dsem = compare_sem(c, obs, mo)
+            chk.count("skeleton-state-semantics:" + mo.get("sem", "?"))
+            if diffs and not dsem:
+                diffs = [diffs[0] + " [the state semantics of the EXTRACTED skeleton still equals model and implementation on this input: "
+                         "statement order changed without changing this case's behaviour]"] + diffs[1:]
+            diffs = diffs + dsem
         if diffs:
             chk.corr_break(cell, "; ".join(diffs[:3]) + f" | line `{lines[idx][:200]}` -> `{outs[idx][:200]}`", {"case": c})
         else:
